@@ -217,6 +217,9 @@ def check_property(pid, tier="quick", extra_evidence=None, quiet=False):
         lines.append(f"  rule {rid} {kind}: {msg}")
         lines.append(f"VIOLATION property={pid} replay={path}")
 
+    if os.environ.get("XT_VERBOSE"):
+        for o in obs:
+            lines.append(f"    [{'ok' if o.ok else 'XX'}] {o.rule} {o.key} :: {o.detail} @ {o.site}")
     nviol = len(violations) + len(problems)
     wall = time.time() - t0
     write_evidence(pid, tier, seed, obs, problems, violations, known_hits, counts, info, wall, extra_evidence)
